@@ -1,0 +1,71 @@
+//go:build verif
+
+// Verification hook (build tag verif), add-only: the node's tx stash (tx_stash.go) and the loop that feeds it
+// (txStashLoop in node.go) are unexported; this file lets the harness open a stash on a directory, call its
+// Save / LoadAll, read back what is on disk and in the FIFO, and run the real loop on a node.
+
+package node
+
+import (
+	"context"
+
+	"github.com/syndtr/goleveldb/leveldb"
+	"github.com/syndtr/goleveldb/leveldb/util"
+
+	"github.com/vechain/thor/v2/thor"
+	"github.com/vechain/thor/v2/tx"
+)
+
+// VerifTxStash is a txStash over a leveldb directory, opened the way Node.Run opens it.
+type VerifTxStash struct {
+	db    *leveldb.DB
+	stash *txStash
+}
+
+// VerifOpenTxStash opens (or creates) the stash directory and builds the stash with the given capacity
+// (Node.Run uses VerifTxStashCap).
+func VerifOpenTxStash(path string, maxSize int) (*VerifTxStash, error) {
+	db, err := leveldb.OpenFile(path, nil)
+	if err != nil {
+		return nil, err
+	}
+	return &VerifTxStash{db: db, stash: newTxStash(db, maxSize)}, nil
+}
+
+// VerifTxStashCap is the capacity Node.Run gives the stash.
+const VerifTxStashCap = 1000
+
+// Save is txStash.Save.
+func (s *VerifTxStash) Save(t *tx.Transaction) error { return s.stash.Save(t) }
+
+// LoadAll is txStash.LoadAll.
+func (s *VerifTxStash) LoadAll() tx.Transactions { return s.stash.LoadAll() }
+
+// Close closes the database.
+func (s *VerifTxStash) Close() error { return s.db.Close() }
+
+// Keys returns the keys on disk in the database's iteration order (read-only).
+func (s *VerifTxStash) Keys() [][]byte {
+	var keys [][]byte
+	it := s.db.NewIterator(util.BytesPrefix(nil), nil)
+	defer it.Release()
+	for it.Next() {
+		keys = append(keys, append([]byte(nil), it.Key()...))
+	}
+	return keys
+}
+
+// Fifo returns the in-memory eviction queue, front (next to be evicted) first (read-only).
+func (s *VerifTxStash) Fifo() []thor.Bytes32 {
+	var out []thor.Bytes32
+	for e := s.stash.fifo.Front(); e != nil; e = e.Next() {
+		out = append(out, e.Value.(thor.Bytes32))
+	}
+	return out
+}
+
+// VerifRunTxStashLoop runs the node's real txStashLoop on the given stash until ctx is cancelled:
+// LoadAll -> pool.Fill at start, then Save for every tx event that is not "executable".
+func (n *Node) VerifRunTxStashLoop(ctx context.Context, s *VerifTxStash) {
+	n.txStashLoop(ctx, s.stash)
+}
